@@ -47,7 +47,7 @@ Init ==
   /\ procs = << [pe |-> 1, tgt |-> 2, alive |-> TRUE, n |-> 0, catch |-> 0] >>
   /\ cur = NoCur /\ run = NoRun
   /\ top = [mode |-> "top", uk |-> "none", ue |-> 0, n |-> 1]
-  /\ log = <<>> /\ script = << <<Op("spawn", 0, 0, 0, Z)>>, <<>> >>
+  /\ log = <<>> /\ script = << <<Op("spawn", 0, 0, 0, Z)>>, <<>> >> /\ res = <<>>
 
 ProcStep == CanAct /\ \E o \in ProcOps : Do(o)
 TopStep == TopCanAct /\ \E o \in PlanOps : Do(o)
